@@ -67,27 +67,39 @@ def check_zero_tests(rep, g, ev, label):
             polls[(n.frame.id, n.bb)] = n
 
     # facts: ('NZ', frame id, bb) = "the count produced at that site has been compared with zero (non-zero edge)"
-    # must-analysis; killed on the Ready edge of that poll, generated on the non-zero edge of a zero test and on
-    # error-propagation edges (no count exists there).
+    # must-analysis; killed on the Ready edge of that poll, generated on the non-zero edge of a zero test, on
+    # error-propagation edges (no count exists there) and when the activation that owns the count returns.
     tests = {}
+
+    # the activation in which the count dies: the poll's frame, or an ancestor if the count is returned upwards
+    scope = {}
+    for (fid, bb) in polls:
+        fr = g.frames[fid]
+        while fr.parent is not None and fr.kind in ('call', 'pollfn', 'closure'):
+            r = g._return_expr(fr, 0)
+            if r is not None and common.mentions_site(r, fid, bb):
+                fr = fr.parent
+            else:
+                break
+        scope[(fid, bb)] = fr.id
 
     def effect(n, m, lab):
         gens, kills = set(), set()
         if n.term["k"] == "return":
-            # the count is a local of this activation: nothing is pending once the function returns
-            for (fid, bb) in polls:
-                if fid == n.frame.id:
-                    gens.add(('NZ', fid, bb))
+            for site, sf in scope.items():
+                if sf == n.frame.id:
+                    gens.add(('NZ',) + site)
         if n.term["k"] == "switch":
-            ps = ev.poll_switch(n)
-            if ps is not None and (n.frame.id, ps[1].bb) in polls and lab == ('case', 0):
-                kills.add(('NZ', n.frame.id, ps[1].bb))
+            if lab == ('case', 0):
+                for (pe, cn) in ev.poll_switches(n):
+                    if (cn.frame.id, cn.bb) in polls:
+                        kills.add(('NZ', cn.frame.id, cn.bb))
             de = ev.switch_expr(n)
             zt = common.zero_test(de)
             if zt is not None:
                 v, c0, other = zt
-                for (fid, bb), pn in polls.items():
-                    if fid == n.frame.id and common.derives_from_site(v, pn.frame.body.path, bb):
+                for (fid, bb) in polls:
+                    if common.derives_from_site(v, fid, bb):
                         tests.setdefault((fid, bb), set()).add(n.key)
                         if ev.edge_value(lab, c0, other) == 'nonzero':
                             gens.add(('NZ', fid, bb))
@@ -95,8 +107,8 @@ def check_zero_tests(rep, g, ev, label):
             if de is not None and de[0] == 'discr':
                 x = ir.peel(de[1])
                 if x[0] == 'call' and x[1].endswith("std::ops::Try>::branch") and lab == ('case', 1):
-                    for (fid, bb), pn in polls.items():
-                        if fid == n.frame.id and common.derives_from_site(x, pn.frame.body.path, bb):
+                    for (fid, bb) in polls:
+                        if common.derives_from_site(x, fid, bb):
                             gens.add(('NZ', fid, bb))
         return gens, kills
 
@@ -114,7 +126,7 @@ def check_zero_tests(rep, g, ev, label):
             for i, a in enumerate(t["args"]):
                 ae = g.resolve(n.frame, a, (n.bb, -1))
                 for (fid, bb), pn in polls.items():
-                    if fid == n.frame.id and (fid, bb) != (n.frame.id, n.bb) and common.derives_from_site(ae, pn.frame.body.path, bb):
+                    if (fid, bb) != (n.frame.id, n.bb) and common.derives_from_site(ae, fid, bb):
                         # the zero-test itself and pure plumbing are not consumers
                         name = g.callee(n) or ""
                         if name.endswith("Try>::branch") or name.endswith("::from_residual") or "checked_sub" in name:
@@ -137,6 +149,7 @@ def check_zero_tests(rep, g, ev, label):
         fn = common.fn_of(pn)
         tk = tests.get((fid, bb), set())
         if not tk:
+            fn = common.fn_of(g.nodes[next(k for k in g.succ if k[0] == scope[(fid, bb)])])
             rep.violation(rule, "%s/%s/%s-zero-test" % (label, fn, pe[0].lower()),
                           "result of the transport %s is never compared with 0" % pe[0].lower(), pn.loc())
             continue
